@@ -77,7 +77,8 @@ func drawScenario(t *rapid.T) scenario {
 	n := rapid.IntRange(2, 12).Draw(t, "sessions")
 	cmds := []string{
 		"NOOP", "CHECK", "FETCH 1:* (FLAGS UID)", "FETCH 1 BODY[]", "UID FETCH 1:* BODY.PEEK[HEADER]", "SEARCH ALL", "UID SEARCH UNSEEN",
-		`STORE 1 +FLAGS (\Seen)`, `STORE 1:* +FLAGS.SILENT (\Deleted)`, `STORE 1:* -FLAGS (\Deleted)`, "EXPUNGE", "COPY 1 A", "COPY 1:* INBOX", "MOVE 1 B", "UID MOVE 1:* A",
+		`STORE 1 +FLAGS (\Seen)`, `STORE 1:* +FLAGS.SILENT (\Deleted)`, `STORE 1:* -FLAGS (\Deleted)`, "EXPUNGE",
+		`STORE 1:* FLAGS (\Flagged)`, `STORE 1:* FLAGS.SILENT (\Answered kw)`, "FETCH 1:* (FLAGS BODY[])", "FETCH 1:* (FLAGS)", "COPY 1 A", "COPY 1:* INBOX", "MOVE 1 B", "UID MOVE 1:* A",
 		"STATUS INBOX (MESSAGES UIDNEXT)", `LIST "" *`, `LSUB "" %`, "CREATE X/Y", "DELETE X/Y", "RENAME X Z", "DELETE Z", "SUBSCRIBE A", "UNSUBSCRIBE A",
 		"SELECT A", "EXAMINE B", "SELECT INBOX", "CLOSE", "UNSELECT", "CAPABILITY", "DELETE B", "CREATE B",
 	}
@@ -633,8 +634,64 @@ func splitRaceReports(log string) []string {
 
 func TestC19Concurrent(t *testing.T) {
 	ev.Checks(60, 600)
-	rapid.Check(t, func(t *rapid.T) {
-		sc := drawScenario(t)
+	rapid.Check(t, func(t *rapid.T) { judgeScenario(t, drawScenario(t)) })
+}
+
+// drawContention draws scenarios of a second family: long-lived sessions of one user that all work on INBOX - one or
+// two of them change it (absolute and relative STORE, FETCH with \Seen side effect, COPY / MOVE onto INBOX itself,
+// EXPUNGE, APPEND), the others only look (NOOP, FETCH FLAGS, SEARCH, STATUS, IDLE). The messages stop being \Recent
+// after the first round, so that the views of the sessions hold what the updates of the others put there.
+func drawContention(t *rapid.T) scenario {
+	sc := scenario{NUsers: 1, Teardown: "logout-close"}
+	sc.NoParallel = rapid.Bool().Draw(t, "noParallel")
+
+	writes := []string{
+		`STORE 1:* FLAGS (\Flagged)`, `STORE 1:* FLAGS (\Answered kw)`, `STORE 1 FLAGS.SILENT ()`, `STORE 1:* +FLAGS (\Draft)`, `STORE 1:* -FLAGS (\Flagged)`,
+		"FETCH 1:* BODY[]", "FETCH 1 (FLAGS BODY[])", "FETCH 1:* RFC822", "COPY 1:* INBOX", "MOVE 1 INBOX", `STORE 1 +FLAGS (\Deleted)`, "EXPUNGE", "NOOP",
+	}
+	reads := []string{"NOOP", "NOOP", "FETCH 1:* (FLAGS)", "FETCH 1:* (FLAGS UID)", "SEARCH UNSEEN", "UID SEARCH FLAGGED", "STATUS INBOX (MESSAGES UNSEEN)", "CHECK", "FETCH 1:* BODY.PEEK[]"}
+
+	for i, n := 0, rapid.IntRange(1, 2).Draw(t, "writers"); i < n; i++ {
+		s := script{Box: "INBOX"}
+
+		for j, k := 0, rapid.IntRange(6, 24).Draw(t, "len"); j < k; j++ {
+			if rapid.IntRange(0, 5).Draw(t, "append") == 0 {
+				s.Steps = append(s.Steps, step{Kind: "append", Text: "INBOX"})
+			} else {
+				s.Steps = append(s.Steps, step{Kind: "cmd", Text: writes[rapid.IntRange(0, len(writes)-1).Draw(t, "w")]})
+			}
+		}
+
+		s.Steps = append(s.Steps, step{Kind: "logout"})
+		sc.Scripts = append(sc.Scripts, s)
+	}
+
+	for i, n := 0, rapid.IntRange(2, 4).Draw(t, "readers"); i < n; i++ {
+		s := script{Box: "INBOX"}
+
+		for j, k := 0, rapid.IntRange(10, 40).Draw(t, "len"); j < k; j++ {
+			if rapid.IntRange(0, 9).Draw(t, "idle") == 0 {
+				s.Steps = append(s.Steps, step{Kind: "idle"})
+			} else {
+				s.Steps = append(s.Steps, step{Kind: "cmd", Text: reads[rapid.IntRange(0, len(reads)-1).Draw(t, "r")]})
+			}
+		}
+
+		s.Steps = append(s.Steps, step{Kind: "logout"})
+		sc.Scripts = append(sc.Scripts, s)
+	}
+
+	return sc
+}
+
+func TestC19Contention(t *testing.T) {
+	ev.Checks(16, 200)
+	rapid.Check(t, func(t *rapid.T) { judgeScenario(t, drawContention(t)) })
+}
+
+// judgeScenario runs one scenario in a child process built with -race and judges what it reports.
+func judgeScenario(t *rapid.T, sc scenario) {
+	{
 
 		dir, err := os.MkdirTemp("", "c19-")
 		if err != nil {
@@ -719,7 +776,7 @@ func TestC19Concurrent(t *testing.T) {
 		if ev.WantSample() {
 			ev.Sample(sc.describe())
 		}
-	})
+	}
 }
 
 var _ = net.Dial
